@@ -7,6 +7,8 @@ mod c05;
 mod c08;
 mod c11;
 mod c12;
+mod c13;
+mod c13gen;
 mod c15;
 mod c16;
 mod c18;
@@ -79,6 +81,11 @@ fn main() {
         "c12-corr" => c12::corr(&ctx),
         "c18-apply" => c18::apply(&ctx),
         "c19-tx" => c19::run(&ctx),
+        "c13-show" => c13::show(&ctx, &extra),
+        "c13-prec" => c13::prec(&ctx, &extra),
+        "c13-roundtrip" => c13::roundtrip(&ctx, &extra),
+        "c20-aiken-text" => c13::c20_aiken_text(&ctx, &extra),
+        "c20-one" => c13::c20_one(&extra),
         other => {
             eprintln!("unknown sub-command {other}");
             std::process::exit(2);
